@@ -680,6 +680,10 @@ def _mut_leaf(rng, node, hreq, role):
     fam = {int: "int", bool: "bool", float: "float", complex: "complex", str: "str", bytes: "bytes"}.get(t)
     if fam:
         opts.append((f"leaf:{fam}", ["leaf", _other(rng, POOL[fam], x)]))
+    if t in (int, bool, float) and role != "count":
+        alts = [c(x) for c in (int, bool, float) if c is not t and c(x) == x]
+        if alts:
+            opts.append(("numtype", ["leaf", rng.choice(alts)]))  # FREE pair: equal number, other scalar type
     if t is str and x.isascii():
         opts.append(("str->bytes", ["leaf", x.encode()]))
     if t is bytes:
@@ -913,7 +917,7 @@ def _mut_frame(rng, node):
 
 KIND_WEIGHT = {"wrap:tuple": 0.15, "wrap:list": 0.3, "bytes->bytearray": 4.0, "reorder:odict": 3.0,
                "odict->counter": 2.0, "ddict->counter": 2.0, "leaf:bool": 2.0, "leaf:complex": 2.0, "leaf:bytes": 1.5,
-               "none->str": 0.5}
+               "none->str": 0.5, "numtype": 0.5}
 
 
 def mutate(rng, spec, prefer=None):
